@@ -100,6 +100,18 @@ def run_fast(pgn, src, dest, prio, payload, seq, variant):
         out["actisense"] = canon(NMEA2000Decoder(**DEC_KW).decode_actisense_string(wire.actisense(pgn, src, dest, prio, payload, ts_a, up)))
     except Exception:
         out["actisense"] = None
+    # frames as they are on the bus: every CAN frame has 8 data bytes, the unused tail of the last one is 0xFF (devices) or 0x00
+    for name, fill in (("ebyte-padded-ff", 0xFF), ("ebyte-padded-00", 0x00)):
+        try:
+            d = NMEA2000Decoder(**DEC_KW)
+            r = None
+            for i, fr in enumerate(frames):
+                r = d.decode_tcp(wire.ebyte(ident, fr + bytes([fill]) * (8 - len(fr))))
+                if i < len(frames) - 1 and r is not None:
+                    break
+            out[name] = canon(r) if (r is None or i == len(frames) - 1) else ("early", canon(r))
+        except Exception:
+            out[name] = None
     # the caller reads every packet into ONE reusable buffer (recv_into / readinto style) and overwrites it for the next packet
     for name, size, render, call in (("ebyte-reused-buffer", 13, lambda fr: wire.ebyte(ident, fr, pad), lambda d, b: d.decode_tcp(b)),
                                      ("usb-reused-buffer", 20, lambda fr: wire.usb(ident, fr, pad), lambda d, b: d.decode_usb(b)),
